@@ -71,8 +71,8 @@ Section proc.
     - split.
       + intros t0 a0 Ha0. rewrite Hact in Ha0. by eapply (pi_exit _ Hpi).
       + intros st Hp t0 a0 Ha0. rewrite Hact in Ha0.
-        destruct Hrs as [o rest Hp0 _ _ _ Hp' _ _ _|t rest _ Hp0 _ _ Hp' _ _ _|t act rest _ Hp0 _ _ Hp' _ _ _ _ _
-                        |t act rest _ Hp0 _ _ Hp' _ _ _ _ _|_ Hp0 _ _ _ Hp' _ _ _ _|_ Hp0 _ _ _ Hp' _ _ _ _
+        destruct Hrs as [pre o rest Hp0 _ _ _ Hp' _ _ _|pre t rest _ Hp0 _ _ Hp' _ _ _|pre t act rest _ Hp0 _ _ Hp' _ _ _ _ _
+                        |pre t act rest _ Hp0 _ _ Hp' _ _ _ _ _|_ Hp0 _ _ _ Hp' _ _ _ _|_ Hp0 _ _ _ Hp' _ _ _ _
                         |_ Hp' _ _ _ _|_ _ Hp' _ _ _ _|st0 Hp0 Hall Hp' _ _ _ _]; rewrite Hp' in Hp; try congruence.
         * rewrite Hp in Hp'. by eapply (pi_done _ Hpi).
         * unfold all_exited in Hall. apply bool_decide_eq_true in Hall. by eapply (map_Forall_lookup_1 _ _ _ _ Hall).
